@@ -78,7 +78,7 @@ CLAIMED = {
         note='serde-json-core / postcard / ryu are modelled, not verified (tied by the differential run). Not theorems: floats (opaque), postcard strings (UTF-8), JSON escapes.',
         tech='Lean 4 proof (digit/varint inductions, mutual induction over values) over a hand-written codec model + exhaustive-over-corpus correspondence'),
     "C12": dict(
-        text='Lean 4 theorems: call_order (for every tree/state/operation/key the call log is a block of accessor calls followed by a block of validator calls); validators_only_after_success (any result other than Ok or a validator rejection means no validator ran); validators_only_on_de; field-level protocol as equations (deny stops with Access before any accessor, failing accessor is called once and stops the walk, reads use get / writes use get_mut, validator receives the depth from below and may keep/replace/reject). Every run drives all single, pairwise and random gate combinations on every attributed type and compares the real call log.',
+        text='Lean 4 theorems: call_order (for every tree/state/operation/key the call log is a block of accessor calls followed by a block of validator calls); validators_only_after_success (any result other than Ok or a validator rejection means no validator ran); validators_only_on_de; field-level protocol as equations (deny stops with Access before any accessor, failing accessor is called once and stops the walk, reads use get / writes use get_mut, validator receives the depth from below and may keep/replace/reject). Every run drives all single, pairwise and random gate combinations on every attributed type and compares the real call log. source_derive_arms_are_model: every arm the derive GENERATES for an attributed field (read from the macro crate\'s own output on every run; Err(Access) under a deny, accessor.map_err(Access).and_then(child)[.and_then(validate.map_err(Invalid))]) evaluated with Result::and_then / map_err semantics equals the model\'s field step (result and callback log), and for every derived corpus type the generated arms are the ones its declared attributes require (kernel-checked table, regenerated every run).',
         note="'Each at most once' per field follows from the recursion (one call site per level) and is checked by the run.",
         tech='Lean 4 proof (mutual structural induction + unfolding equations) + call-log correspondence/oracle'),
     "C16": dict(
